@@ -230,12 +230,14 @@ func main() {
 	for _, k := range []string{"contiguous", "out-of-order", "codon-positions", "interleaved-halves"} {
 		mon.Floor("partboot:"+k, 500)
 	}
+	mon.Floor("concurrent:calls", 500)
 	mon.Main("C10", []mon.Sub{
 		{Name: "witness", Quick: nWitness, Thorough: nWitness, Run: runWitness},
 		{Name: "invariant", Quick: 220000, Thorough: 6000000, Run: runInvariant},
 		{Name: "seqbag", Quick: 30000, Thorough: 600000, Run: runSeqBag},
 		{Name: "support", Quick: 1200, Thorough: 16800, Run: runSupport},
 		{Name: "partboot", Quick: 4000, Thorough: 80000, Run: runPartBoot},
+		{Name: "concurrent", Quick: 64, Thorough: 1200, Race: true, Run: runConcurrent},
 		{Name: "cli", Quick: nCli, Thorough: nCli * 4, Serial: true, Run: runCli},
 	})
 }
